@@ -5,6 +5,7 @@ FENCE_NOTE = ("Trusts: x86-64 Linux page protection and the fault error code (wr
               "and 20-40 line C models). Accesses inside mapped memory that is no arena slot are not observed.")
 
 ENGINES = [
+    {"name": "tok", "path": "harness/tok.c", "serves_properties": ["C14", "C01", "C02"], "kind_free_text": "tokenizer call-sequence driver with reference tokenizer"},
     {"name": "sortsearch", "path": "harness/sortsearch.c", "serves_properties": ["C16"], "kind_free_text": "qsort_s / bsearch_s driver with checking comparators"},
     {"name": "queries", "path": "harness/queries.c", "serves_properties": ["C01", "C02", "C05", "C10"],
      "kind_free_text": "exhaustive small-alphabet driver for the read-only query exports under the fence, with reference models"},
@@ -52,6 +53,12 @@ META = {
              text="Every comparison/search/span/length/classification export is called on all strings over a small alphabet (both operands), "
                   "with dmax/slen at, above and below the string lengths, and its answer compared with a reference computed on bounded "
                   "private copies; operands must be unchanged. Exhaustive inside the stated bounds, nothing beyond them.",
+             note=FENCE_NOTE),
+ "C14": dict(technique="runtime monitoring: recorded call sequences checked against a reference tokenizer; continuation pointer poisoned into a guard page",
+             engine="tok",
+             text="Every call of a strtok_s/wcstok_s sequence is compared with a reference tokenizer (token start, length, terminator inside the buffer, only "
+                  "delimiter positions overwritten, NULL forever after the first NULL, *ptr+*dmaxp never beyond dest+dmax, *dmaxp never grows); unterminated "
+                  "inputs must end in an error without any access past dmax (buffer exact-fit between PROT_NONE pages).",
              note=FENCE_NOTE),
  "C16": dict(technique="runtime monitoring: checking comparator + post-sort order/permutation scan + linear-search reference, array between guard pages, plain and ASan builds",
              engine="sortsearch",
